@@ -1137,9 +1137,14 @@ func runReplay(path string) {
 	var ips []uint32
 	var mls []uint64
 	var ipTexts []string
+	var firstOps []string
 	for _, c := range rf.Cases {
 		f := strings.Fields(c.Op)
 		if len(f) == 0 {
+			continue
+		}
+		if f[0] == "first-call" {
+			firstOps = append(firstOps, strings.TrimPrefix(c.Op, "first-call "))
 			continue
 		}
 		switch f[0] {
@@ -1187,11 +1192,18 @@ func runReplay(path string) {
 	bitSection(bs)
 	ipSection(ips)
 	ipTextSection(ipTexts)
+	freshProcessSection(firstOps)
 }
 
 // ---------------------------------------------------------------- main
 
 func main() {
+	// child mode of the fresh-process stage: one call, first thing the process does
+	for i, a := range os.Args {
+		if (a == "-firstcall" || a == "--firstcall") && i+1 < len(os.Args) {
+			firstCallChild(os.Args[i+1])
+		}
+	}
 	env, rep = vh.Parse("C15")
 	rng := vh.NewRng(env.Seed)
 	rep.Rule = "hash inputs: every byte string of length ≤ 2 plus random strings (lengths 0..64 mostly, block-size boundaries, some 1–4 KiB, text-like, constant runs); " +
@@ -1211,6 +1223,9 @@ func main() {
 		rep.Note("section %s: %.1fs", name, time.Since(t0).Seconds())
 		t0 = time.Now()
 	}
+	// 0. order dependence, first pass: boundary values and congruent families before anything else
+	twiceBegin(rng.Fork())
+	lap("order-first-pass")
 	// 1. CRC family
 	nHash, nBulk := 100000, 0
 	if env.Thorough {
@@ -1339,6 +1354,10 @@ func main() {
 		lap("ipv4-all-2^32")
 	}
 
+	// 6. order dependence, second pass + boundary values as the first call of fresh processes
+	twiceEnd()
+	freshProcessSection(boundaryOps())
+	lap("order-second-pass+fresh-processes")
 	knownReplays()
 	flushCorr()
 	rep.Extra["bulk_distinct"] = bulkDistinct
